@@ -150,10 +150,49 @@ func isEqualityCall(v ssa.Value) (ssa.Value, ssa.Value, bool) {
 		return nil, nil, false
 	}
 	switch fq(f) {
-	case "interop.PublicKey.Equals", "interop.Hash160.Equals", "interop.Hash256.Equals", "util.Equals", "common.bytesEqual":
+	case "interop.PublicKey.Equals", "interop.Hash160.Equals", "interop.Hash256.Equals", "util.Equals":
+		return stripConv(c.Common().Args[0]), stripConv(c.Common().Args[1]), true
+	}
+	if isEqualityHelper(f) {
 		return stripConv(c.Common().Args[0]), stripConv(c.Common().Args[1]), true
 	}
 	return nil, nil, false
+}
+
+// isEqualityHelper: a two-parameter helper whose whole body is "return conv(a) == conv(b)"
+// (common.bytesEqual, whatever it is called).
+func isEqualityHelper(f *ssa.Function) bool {
+	if len(f.Params) != 2 || len(f.Blocks) != 1 {
+		return false
+	}
+	b := f.Blocks[0]
+	r, ok := b.Instrs[len(b.Instrs)-1].(*ssa.Return)
+	if !ok || len(r.Results) != 1 {
+		return false
+	}
+	var x, y ssa.Value
+	switch e := r.Results[0].(type) {
+	case *ssa.BinOp:
+		if e.Op != token.EQL {
+			return false
+		}
+		x, y = stripConv(e.X), stripConv(e.Y)
+	case *ssa.Call:
+		// one level: the body is itself a call of a known equality
+		c := e.Common().StaticCallee()
+		if c == nil || c == f || len(e.Common().Args) != 2 {
+			return false
+		}
+		switch fq(c) {
+		case "interop.PublicKey.Equals", "interop.Hash160.Equals", "interop.Hash256.Equals", "util.Equals":
+		default:
+			return false
+		}
+		x, y = stripConv(e.Common().Args[0]), stripConv(e.Common().Args[1])
+	default:
+		return false
+	}
+	return x == ssa.Value(f.Params[0]) && y == ssa.Value(f.Params[1]) || x == ssa.Value(f.Params[1]) && y == ssa.Value(f.Params[0])
 }
 
 // elementOf: v is *(&C[i]) → C, or is derived (type assertion, slicing, field)
